@@ -42,7 +42,6 @@ mod imp {
     use std::collections::VecDeque;
     use std::sync::Mutex;
     pub static VALS: Mutex<VecDeque<Vec<u8>>> = Mutex::new(VecDeque::new());
-    pub static LOG: Mutex<Vec<String>> = Mutex::new(Vec::new());
     fn next(n: usize) -> u64 {
         let v = VALS.lock().unwrap().pop_front();
         let mut out = 0u64;
@@ -60,7 +59,6 @@ mod imp {
                 eprintln!("VK-REPLAY-EXHAUSTED (value defaults to 0)");
             }
         }
-        LOG.lock().unwrap().push(format!("{}:{}", n, out));
         out
     }
     pub fn u8_() -> u8 {
